@@ -120,6 +120,10 @@ def runLoadFull04 (j : Json) : R Json := do
       ("channel_shanks", jArr04 fv.channelShanks), ("channel_probes", jArr04 fv.channelProbes),
       ("templates", jOpt jArr04 v.templates), ("template_cols", jOpt jArr04 fv.templateCols),
       ("wm", jArr04 fv.wm), ("wmi", jOpt jArr04 v.wmi), ("similar", jArr04 fv.similar),
+      -- no whitening matrix and no stored inverse: `fv.wmi` = what the loader WROTE = the inverse of the identity, which
+      -- is the identity (the driver's `inv` is `id`: exact on the identity only, so only this case is exported)
+      ("wmi_of_identity", if v.wm.isNone && v.wmi.isNone then jArr04 fv.wmi else Json.null),
+      ("wmi_written", if v.wm.isNone && v.wmi.isNone then jOpt jArr04 (d'.lookup "whitening_mat_inv.npy") else Json.null),
       ("spike_attributes", Json.mkObj (fv.spikeAttributes.map fun na => (na.1, jArr04 na.2))),
       ("traces", traces), ("n_samples", jOpt jNat fv.nSamples), ("duration", jRat fv.duration),
       ("features", jOpt jSparse04 feats), ("template_features", jOpt jSparse04 tfeats),
